@@ -196,8 +196,8 @@ def desc (fx : Bool) : Site → Desc
       some (if fx then .error else .panic)⟩
   | .registerEvents =>   -- control.go registerEvents: `else if _, ok := frame.(*readyFrame); !ok { return fmt.Errorf }`
     ⟨.assert, .call, [([.ty ready], .handled)], some .error⟩
-  | .handleEvent =>      -- events.go handleEvent
-    ⟨.switch, .goMethod,
+  | .handleEvent =>      -- events.go handleEvent (since fix 41d500c called inline from Conn.recv, no longer `go …`)
+    ⟨.switch, .call,
       [([.ty schemaKeyspace, .ty schemaFunction, .ty schemaTable, .ty schemaAggregate, .ty schemaType], .handled),
        ([.ty topologyChange, .ty statusChange], .handled)],
       some .log⟩
@@ -371,8 +371,11 @@ def kindsLine : String :=
 def fact : String → Option String
   | "recovers" => some "framer.parseFrame"            -- the only recover() in the package
   | "parseframe-repanics" => some "runtime.Error"     -- ... and it re-panics runtime errors
-  | "event-goroutine" => some "Conn.recv:go:handleEvent"
-  | "go-launched" => some ("Conn.init:go:heartBeat,Conn.init:go:serve,Conn.recv:go:handleEvent," ++
+  -- since fix 41d500c (KF-C16-2) recv calls Session.handleEvent INLINE, on the connection's serve goroutine
+  -- (`Conn.init:go:serve`), which has no recover either: a runtime panic while an EVENT is parsed still
+  -- kills the process
+  | "event-goroutine" => some "-"
+  | "go-launched" => some ("Conn.init:go:heartBeat,Conn.init:go:serve," ++
       "controlConn.connect:go:heartBeat,eventDebouncer.flush:go:callback")
   | "challengers" => some "PasswordAuthenticator"
   | "challenge-nil" => some "PasswordAuthenticator"   -- Challenge returns (resp, nil, nil)
@@ -395,7 +398,7 @@ def scenarioCell : String → Option (Site × FrameKind)
     parse model of the integrator's part explains the first one) -/
 def scenarioFact (fx : Bool) : String → Option String
   -- (a) EVENT STATUS_CHANGE on stream -1 whose [inet] says 16 bytes and has 2: parsed by
-  --     Session.handleEvent on a goroutine of its own (fact `event-goroutine`), parseFrame re-panics
+  --     Session.handleEvent on the connection's serve goroutine (fact `go-launched`: no recover there), parseFrame re-panics
   --     the runtime error (fact `parseframe-repanics`): the process dies.  KF-C05-disp-5
   | "event-short-inet" => some "crash:framer.readInetAdressOnly:slice"
   | "event-wellformed" => some "survived"
